@@ -364,6 +364,7 @@ func TestCheck(t *testing.T) {
 		vcommon.S("source-bytes", 4000, 400000, genSource(), checkSource),
 		vcommon.S("apply-registry", 32000, 3200000, genApply(), checkApply),
 		vcommon.S("readers-unlimited", 2400, 800000, genReaderSrc(), checkReaders),
+		vcommon.S("mutate-then-read", 9600, 1600000, genSeq(), checkSeq),
 		vcommon.E("source-matrix", enumMatrix, checkSource),
 		vcommon.E("readers-matrix", enumReaderMatrix, checkReaders),
 	)
